@@ -148,6 +148,13 @@ func untyped(v *big.Int) Val { return Val{Const: v} }
 
 // fit materialises an untyped constant against the type of the other operand.
 func (e *specEnv) fit(v Val, t types.Type) Val {
+	if v.Typ == types.Typ[types.UntypedNil] && t != nil {
+		// nil assigned to a ghost variable / compared at an interface type
+		if types.IsInterface(t) {
+			return Val{T: Var("iface_nil", e.c().ifaceSort()), Typ: t}
+		}
+		return Val{T: e.c().zero(t), Typ: t}
+	}
 	if v.Const == nil || v.T != nil {
 		return v
 	}
